@@ -92,3 +92,19 @@ package arp
 //@   observe (*net.IPNet).String, fmt.Sprintf
 //@   entry row bare: [] when r.DstSubnet == nil && ret0 == "arp" && ret1 == 64 -> exit
 //@   entry row net:  [call String(r.DstSubnet) as (ns) ; call fmt.Sprintf("arp src net %s", bind_a) as (f)] when r.DstSubnet != nil && len(a) == 1 && astype(a[0], string) == ns && ret0 == f && ret1 == 64 -> exit
+
+// ---------------------------------------------------------------------------------------------
+// C05: ARP request frames: broadcast Ethernet frame from the request's source MAC; who-has for the request's
+// destination address (4-byte form), sender = the request's source MAC / address, 6/4-byte address sizes
+//@ func (*PacketFiller).Fill
+//@   props C05
+//@   observe To4, gopacket.SerializeLayers
+//@   entry row request: [call To4(r.DstIP) as (d4) ; call gopacket.SerializeLayers(packet, bind_opt, bind_ls) as (se)]
+//@                         when ret == se && len(ls) == 2 && isptr(ls[0], layers.Ethernet) && isptr(ls[1], layers.ARP)
+//@                           && fresh(asptr(ls[0], layers.Ethernet)) && fresh(asptr(ls[1], layers.ARP))
+//@                           && asptr(ls[0], layers.Ethernet).SrcMAC == r.SrcMAC && asptr(ls[0], layers.Ethernet).EthernetType == 2054
+//@                           && len(asptr(ls[0], layers.Ethernet).DstMAC) == 6 && (forall i int :: 0 <= i && i < 6 ==> asptr(ls[0], layers.Ethernet).DstMAC[i] == 255)
+//@                           && asptr(ls[1], layers.ARP).AddrType == 1 && asptr(ls[1], layers.ARP).Protocol == 2048 && asptr(ls[1], layers.ARP).HwAddressSize == 6 && asptr(ls[1], layers.ARP).ProtAddressSize == 4
+//@                           && asptr(ls[1], layers.ARP).Operation == 1 && asptr(ls[1], layers.ARP).SourceHwAddress == r.SrcMAC && asptr(ls[1], layers.ARP).SourceProtAddress == r.SrcIP
+//@                           && asptr(ls[1], layers.ARP).DstProtAddress == d4
+//@                           && len(asptr(ls[1], layers.ARP).DstHwAddress) == 6 && (forall i int :: 0 <= i && i < 6 ==> asptr(ls[1], layers.ARP).DstHwAddress[i] == 0) -> exit
